@@ -3,6 +3,7 @@ package main
 import (
 	"bytes"
 	"fmt"
+	"io"
 	"math/big"
 	"strconv"
 
@@ -176,7 +177,7 @@ func evalSm2sign(args []string) string {
 		uid = nil
 	}
 	fr := &fixedRand{rnd}
-	r, s, err := sm2.Sm2Sign(privFromD(d), msg, uid, fr)
+	r, s, err := sm2.Sm2Sign(privFromD(d), msg, uid, shortReads(fr, rnd))
 	if err != nil {
 		return "err"
 	}
@@ -194,7 +195,7 @@ func evalSm2signder(args []string) string {
 	if !ok || !ok3 || !ok4 {
 		return "bad-op"
 	}
-	sig, err := privFromD(d).Sign(&fixedRand{rnd}, msg, nil)
+	sig, err := privFromD(d).Sign(shortReads(&fixedRand{rnd}, rnd), msg, nil)
 	if err != nil {
 		return "err"
 	}
@@ -265,9 +266,9 @@ func evalSm2enc(args []string) string {
 	var ct []byte
 	var err error
 	if args[2] == "asn1" {
-		ct, err = sm2.EncryptAsn1(pub, msg, &fixedRand{rnd})
+		ct, err = sm2.EncryptAsn1(pub, msg, shortReads(&fixedRand{rnd}, rnd))
 	} else {
-		ct, err = sm2.Encrypt(pub, msg, &fixedRand{rnd}, modeOf(args[2]))
+		ct, err = sm2.Encrypt(pub, msg, shortReads(&fixedRand{rnd}, rnd), modeOf(args[2]))
 	}
 	if err != nil {
 		return "err"
@@ -332,6 +333,20 @@ func evalSm2kex(args []string) string {
 	da, db, ra, rb := privFromD(v[0]), privFromD(v[1]), privFromD(v[2]), privFromD(v[3])
 	a := kexSide(klen, ida, idb, da, ra, &db.PublicKey, &rb.PublicKey, true)
 	b := kexSide(klen, ida, idb, db, rb, &da.PublicKey, &ra.PublicKey, false)
+	// the long-term and ephemeral keys are the caller's: an exchange must leave them as they were, and a
+	// second exchange with the same key objects must give the same result
+	for i, k := range []*sm2.PrivateKey{da, db, ra, rb} {
+		if k.D.Cmp(v[i]) != 0 {
+			return "ORACLE-FAIL:private-key-modified-by-key-exchange"
+		}
+		x, y := sm2.P256Sm2().ScalarBaseMult(v[i].Bytes())
+		if k.X.Cmp(x) != 0 || k.Y.Cmp(y) != 0 {
+			return "ORACLE-FAIL:public-key-modified-by-key-exchange"
+		}
+	}
+	if a2 := kexSide(klen, ida, idb, da, ra, &db.PublicKey, &rb.PublicKey, true); a2 != a {
+		return "ORACLE-FAIL:second-exchange-with-the-same-keys-differs"
+	}
 	return a + " " + b
 }
 
@@ -365,4 +380,27 @@ func evalWnaf(args []string) string {
 		out = append(out, strconv.Itoa(int(d)))
 	}
 	return join(out)
+}
+
+// shortReads hands the bytes of a fixed random stream out in reads of 1, 7, 16 or 39 bytes (or unrestricted),
+// chosen by the stream itself: a source of randomness may return fewer bytes than asked for without an error
+// (io.Reader contract), and the library must keep reading until it has what it needs.
+type chunkedRand struct {
+	f     *fixedRand
+	chunk int
+}
+
+func (c *chunkedRand) Read(p []byte) (int, error) {
+	if c.chunk > 0 && len(p) > c.chunk {
+		p = p[:c.chunk]
+	}
+	return c.f.Read(p)
+}
+
+func shortReads(f *fixedRand, rnd []byte) io.Reader {
+	k := 0
+	if len(rnd) > 0 {
+		k = []int{0, 1, 7, 16, 39}[int(rnd[len(rnd)-1])%5]
+	}
+	return &chunkedRand{f, k}
 }
